@@ -57,6 +57,7 @@ template<class F> static void attempt(const std::string& label, const char* entr
    std::fflush(stdout);
 }
 
+static int children_timed_out = 0;      // prints that did not finish within the child's time limit
 static void in_child(const std::string& label, const char* entry, const std::function<void()>& body)
 {
    std::fflush(stdout);
@@ -71,6 +72,7 @@ static void in_child(const std::string& label, const char* entry, const std::fun
    }
    int st = 0;
    waitpid(pid, &st, 0);
+   if (WIFSIGNALED(st) and WTERMSIG(st) == SIGALRM) ++children_timed_out;
    if (WIFSIGNALED(st)) std::printf("P %s %s outcome=signal:%d bytes=- \n", label.c_str(), entry, WTERMSIG(st));
    else if (WEXITSTATUS(st) != 0) std::printf("P %s %s outcome=exit:%d bytes=- \n", label.c_str(), entry, WEXITSTATUS(st));
    std::fflush(stdout);
@@ -135,12 +137,13 @@ static int lit_mode()
 static std::string print_unit(Builder& b, bool locs, std::string& state, int preset = 0)
 {
    std::ostringstream os; ipr::Printer pp(b.lex, os); pp.print_locations = locs;
-   const char* preset_name[] = { "", "hex+showbase", "oct", "uppercase+left+fill+precision", "boolalpha+showpos+scientific" };
+   const char* preset_name[] = { "", "hex+showbase", "oct", "uppercase+left+fill+precision", "boolalpha+showpos+scientific", "margin-moved-left-by-the-caller" };
    switch (preset) {
    case 1: os.setf(std::ios_base::hex, std::ios_base::basefield); os.setf(std::ios_base::showbase); break;
    case 2: os.setf(std::ios_base::oct, std::ios_base::basefield); break;
    case 3: os.setf(std::ios_base::uppercase); os.setf(std::ios_base::left, std::ios_base::adjustfield); os.fill('*'); os.precision(3); break;
    case 4: os.setf(std::ios_base::boolalpha | std::ios_base::showpos); os.setf(std::ios_base::scientific, std::ios_base::floatfield); break;
+   case 5: pp.indent(-4); break;          // a caller that moved the margin to the left of where the printer started
    default: break;
    }
    Snapshot s0(os, pp);
@@ -182,6 +185,7 @@ static int prog_mode()
    while (std::getline(std::cin, line)) {
       if (line.empty() or line[0] == '#') continue;
       ++n;
+      if (children_timed_out >= 2) { std::printf("G %zu skipped=after-two-prints-that-did-not-finish\n", n); continue; }
       in_child("prog" + std::to_string(n), "prog", [&] {
          std::string state;
          try {
@@ -192,7 +196,7 @@ static int prog_mode()
             std::string A = print_unit(a, false, state), A2 = print_unit(a, false, state), Al = print_unit(a, true, state),
                         A3 = print_unit(a, false, state), B = print_unit(b, false, state), Bl = print_unit(b, true, state);
             // the caller's own formatting choices survive a print (with locations on, so that numbers are written)
-            for (int preset = 1; preset <= 4; ++preset) {
+            for (int preset = 1; preset <= 5; ++preset) {
                std::string st;
                print_unit(a, true, st, preset);
                if (st.find("stream-state") != std::string::npos or st.find("indent") != std::string::npos) state += st.substr(st.find("|stream-state") != std::string::npos ? st.find("|stream-state") : 0);
